@@ -33,8 +33,25 @@ def plan(tier):
     return {'stages': [('shard_lists', 6), ('shard_js', 3), ('shard_pandas', 2), ('shard_sqlite', 2), ('shard_csv', 3)], 'timeout_s': 3000}
 
 
+MUTABLE_QUERIES = ['select a1, SUM(a2) group by a1', 'select SUM(a2)', 'select MIN(a2), MAX(a2)', 'select a1, ARRAY_AGG(a2) group by a1', 'select ANY_VALUE(a2), COUNT(*)', 'select MEDIAN(a2)', 'select AVG(a2)',
+                   'select a2 + a2, a1', 'select a1, UNNEST(a2)', 'update a2 = a2', 'update a2 = a2 + a2 where NR == 1', 'select * order by a1 desc', 'select distinct a1, str(a2)', 'select a1, b2 join b on a1 == b1',
+                   'select a1, SUM(b2) join b on a1 == b1 group by a1', 'update a2 = b2 join b on a1 == b1', 'select a1, a2 where a2', 'select top 1 a2', 'select a1, VARIANCE(a2) group by a1',
+                   'select a1, MAX(a2), MIN(a2) group by a1', 'select distinct count a1', 'select a.*, b.* left join b on a1 == b1']
+
+
+@st.composite
+def st_mutable_cells(draw):
+    """Tables whose cells are mutable objects (lists, dicts): an aggregate or expression that works in place would edit the caller's cell."""
+    cell = st.sampled_from([[1], [1, 2], ['a'], [], [[0]], {'k': 1}, [2, 3, 4]])
+    key = st.sampled_from(['x', 'y'])
+    A = [[draw(key), copy.deepcopy(draw(cell))] for _ in range(draw(st.integers(1, 5)))]
+    B = [[draw(key), copy.deepcopy(draw(cell))] for _ in range(draw(st.integers(0, 3)))]
+    q = draw(st.sampled_from(MUTABLE_QUERIES))
+    return {'A': A, 'B': B if ' join ' in q else None, 'a_names': None, 'b_names': None, 'query': q}
+
+
 def list_strategy():
-    return st.one_of(qgen.st_case_select(join_p=0, except_p=1, distinct=True, top=True, order=True), c01.strategy(), c02.strategy(), c03.st_case(), c04.strategy(), c05.strategy(), c05.strategy(), c14.st_poison(), c14.st_mistake())
+    return st.one_of(st_mutable_cells(), qgen.st_case_select(join_p=0, except_p=1, distinct=True, top=True, order=True), c01.strategy(), c02.strategy(), c03.st_case(), c04.strategy(), c05.strategy(), c05.strategy(), c14.st_poison(), c14.st_mistake())
 
 
 def with_modifier(text):
